@@ -1,0 +1,87 @@
+//go:build verif
+
+// Contracts for the gvc verifier (/verif). Comment-only file: it adds no code to the package.
+//
+// C17. nsent("<channel>") is the engine's ghost count of values sent on a broadcaster channel.
+package tmgossip
+
+//@ iface tmp2p.ConsensusBroadcaster.OutgoingProposedHeaders(cb)
+//@   modifies nothing
+//@ iface tmp2p.ConsensusBroadcaster.OutgoingPrevoteProofs(cb)
+//@   modifies nothing
+//@ iface tmp2p.ConsensusBroadcaster.OutgoingPrecommitProofs(cb)
+//@   modifies nothing
+
+// Nothing is offered to the broadcaster that is not a projection of the view at hand.
+//@ chaninv tmp2p.ConsensusBroadcaster.OutgoingPrevoteProofs(v): v.Height == view.Height && v.Round == view.Round &&
+//@     (forall h string :: (h in v.Proofs) == (h in view.PrevoteProofs))
+//@ chaninv tmp2p.ConsensusBroadcaster.OutgoingPrecommitProofs(v): v.Height == view.Height && v.Round == view.Round &&
+//@     (forall h string :: (h in v.Proofs) == (h in view.PrecommitProofs))
+
+//@ define nPH() = nsent("tmp2p.ConsensusBroadcaster.OutgoingProposedHeaders")
+//@ define nPV() = nsent("tmp2p.ConsensusBroadcaster.OutgoingPrevoteProofs")
+//@ define nPC() = nsent("tmp2p.ConsensusBroadcaster.OutgoingPrecommitProofs")
+
+//@ func ChattyStrategy.broadcastProposedBlocks
+//@   property C17
+//@   ensures every-header-offered: result ==> nPH() == old(nPH()) + len(view.ProposedHeaders)
+//@   ensures only-headers: nPV() == old(nPV()) && nPC() == old(nPC())
+//@   modifies nothing
+//@   loop 1 invariant -1 <= rangeindex && rangeindex < len(view.ProposedHeaders) && nPH() == old(nPH()) + rangeindex + 1 && nPV() == old(nPV()) && nPC() == old(nPC())
+
+//@ func ChattyStrategy.broadcastPrevotes
+//@   property C17
+//@   ensures offered-when-present: result && len(view.PrevoteProofs) > 0 ==> nPV() == old(nPV()) + 1
+//@   ensures nothing-when-empty: len(view.PrevoteProofs) == 0 ==> result && nPV() == old(nPV())
+//@   ensures only-prevotes: nPH() == old(nPH()) && nPC() == old(nPC()) && nPV() <= old(nPV()) + 1
+//@   modifies nothing
+
+//@ func ChattyStrategy.broadcastPrecommits
+//@   property C17
+//@   ensures offered-when-present: result && len(view.PrecommitProofs) > 0 ==> nPC() == old(nPC()) + 1
+//@   ensures nothing-when-empty: len(view.PrecommitProofs) == 0 ==> result && nPC() == old(nPC())
+//@   ensures only-precommits: nPH() == old(nPH()) && nPV() == old(nPV()) && nPC() <= old(nPC()) + 1
+//@   modifies nothing
+
+//@ func ChattyStrategy.broadcastAll
+//@   property C17
+//@   ensures everything-offered: result ==> nPH() == old(nPH()) + len(view.ProposedHeaders) &&
+//@       (len(view.PrevoteProofs) > 0 ==> nPV() == old(nPV()) + 1) && (len(view.PrecommitProofs) > 0 ==> nPC() == old(nPC()) + 1)
+//@   modifies nothing
+
+//@ func ChattyStrategy.broadcastViewDiff
+//@   property C17
+//@   ensures new-round-broadcasts-everything: result && !(cur.Height == prev.Height && cur.Round == prev.Round) ==>
+//@       nPH() == old(nPH()) + len(cur.ProposedHeaders) &&
+//@       (len(cur.PrevoteProofs) > 0 ==> nPV() == old(nPV()) + 1) && (len(cur.PrecommitProofs) > 0 ==> nPC() == old(nPC()) + 1)
+//@   modifies nothing
+
+// Same-round update: whatever changed the number of proposed headers or the set of distinct signers is offered again.
+//@ define unionInv(x, m, k) = (forall i mathint :: {bsbits(x)[i]} bsbits(x)[i] ==> ubits(m)[i]) &&
+//@     (forall h string, i mathint :: {pbits(mapvals(m)[h])[i]} visited(k)[h] && pbits(mapvals(m)[h])[i] ==> bsbits(x)[i]) &&
+//@     (forall h string :: visited(k)[h] ==> h in m)
+
+//@ func ChattyStrategy.broadcastUpdatesOnly
+//@   property C17
+//@   ensures changed-header-count-offers-headers: result && len(cur.ProposedHeaders) != len(prev.ProposedHeaders) ==> nPH() == old(nPH()) + len(cur.ProposedHeaders)
+//@   ensures new-prevote-signers-offered: result && len(cur.PrevoteProofs) > 0 &&
+//@       card(ubits(cur.PrevoteProofs)) != card(ubits(prev.PrevoteProofs)) ==> nPV() == old(nPV()) + 1
+//@   ensures new-precommit-signers-offered: result && len(cur.PrecommitProofs) > 0 &&
+//@       card(ubits(cur.PrecommitProofs)) != card(ubits(prev.PrecommitProofs)) ==> nPC() == old(nPC()) + 1
+//@   ensures every-new-precommit-offered: result && (exists h string, i mathint :: (h in cur.PrecommitProofs) && pbits(mapvals(cur.PrecommitProofs)[h])[i] &&
+//@       !((h in prev.PrecommitProofs) && pbits(mapvals(prev.PrecommitProofs)[h])[i])) ==> nPC() == old(nPC()) + 1
+//@   ensures every-new-prevote-offered: result && (exists h string, i mathint :: (h in cur.PrevoteProofs) && pbits(mapvals(cur.PrevoteProofs)[h])[i] &&
+//@       !((h in prev.PrevoteProofs) && pbits(mapvals(prev.PrevoteProofs)[h])[i])) ==> nPV() == old(nPV()) + 1
+//@   modifies nothing
+//@   loop 1 invariant u1: unionInv(prevPrevoteBitset, prev.PrevoteProofs, 1)
+//@   loop 1 invariant c1: prevPrevoteBitset != nil && fresh(prevPrevoteBitset) && nPV() == old(nPV()) && nPC() == old(nPC())
+//@   loop 2 invariant u2: unionInv(curPrevoteBitset, cur.PrevoteProofs, 2)
+//@   loop 2 invariant c2: curPrevoteBitset != nil && fresh(curPrevoteBitset) && curPrevoteBitset != prevPrevoteBitset && nPV() == old(nPV()) && nPC() == old(nPC()) &&
+//@       bsbits(prevPrevoteBitset) == ubits(prev.PrevoteProofs)
+//@   loop 3 invariant u3: unionInv(prevPrecommitBitset, prev.PrecommitProofs, 3)
+//@   loop 3 invariant c3: prevPrecommitBitset != nil && fresh(prevPrecommitBitset) && nPC() == old(nPC()) &&
+//@       (len(cur.PrevoteProofs) > 0 && card(ubits(cur.PrevoteProofs)) != card(ubits(prev.PrevoteProofs)) ==> nPV() == old(nPV()) + 1)
+//@   loop 4 invariant u4: unionInv(curPrecommitBitset, cur.PrecommitProofs, 4)
+//@   loop 4 invariant c4: curPrecommitBitset != nil && fresh(curPrecommitBitset) && curPrecommitBitset != prevPrecommitBitset && nPC() == old(nPC()) &&
+//@       bsbits(prevPrecommitBitset) == ubits(prev.PrecommitProofs) &&
+//@       (len(cur.PrevoteProofs) > 0 && card(ubits(cur.PrevoteProofs)) != card(ubits(prev.PrevoteProofs)) ==> nPV() == old(nPV()) + 1)
